@@ -318,6 +318,52 @@ async fn run_program(st: &mut Store, mode: Mode, prog: &[Op], stats: &mut (u64, 
                         if back != wantb {
                             return Err(format!("op {}: backward scan differs from snapshot + pending writes: got {} expected {}", i, e1::fmt_list(&back), e1::fmt_list(&wantb)));
                         }
+                        // turn-arounds: forward onto the last entry and all the way back; backward
+                        // onto the first entry and all the way forward (the entry the cursor
+                        // turns on may be a pending write beyond every committed key, or the
+                        // other way round)
+                        if exp.len() >= 2 {
+                            let turn = (|| -> Result<(Vec<Vec<u8>>, Vec<Vec<u8>>), String> {
+                                let mut it = tx.range(e1::LO_ALL, e1::HI_ALL).map_err(|e| e.to_string())?;
+                                let mut a = vec![];
+                                let mut ok = it.seek_first().map_err(|e| e.to_string())?;
+                                for _ in 1..exp.len() {
+                                    if !ok {
+                                        break;
+                                    }
+                                    ok = it.next().map_err(|e| e.to_string())?;
+                                }
+                                while ok {
+                                    a.push(it.key().user_key().to_vec());
+                                    ok = it.prev().map_err(|e| e.to_string())?;
+                                }
+                                let mut it = tx.range(e1::LO_ALL, e1::HI_ALL).map_err(|e| e.to_string())?;
+                                let mut b = vec![];
+                                let mut ok = it.seek_last().map_err(|e| e.to_string())?;
+                                for _ in 1..exp.len() {
+                                    if !ok {
+                                        break;
+                                    }
+                                    ok = it.prev().map_err(|e| e.to_string())?;
+                                }
+                                while ok {
+                                    b.push(it.key().user_key().to_vec());
+                                    ok = it.next().map_err(|e| e.to_string())?;
+                                }
+                                Ok((a, b))
+                            })()
+                            .map_err(|e| format!("op {}: turn-around scan failed: {e}", i))?;
+                            let fwd_keys: Vec<Vec<u8>> = exp.iter().map(|e| e.0.clone()).collect();
+                            let mut bwd_keys = fwd_keys.clone();
+                            bwd_keys.reverse();
+                            let show = |v: &Vec<Vec<u8>>| v.iter().map(|k| hex(k)).collect::<Vec<_>>().join(" ");
+                            if turn.0 != bwd_keys {
+                                return Err(format!("op {}: cursor walked forward onto the last entry and then back lists [{}], snapshot + pending writes hold (backward) [{}]", i, show(&turn.0), show(&bwd_keys)));
+                            }
+                            if turn.1 != fwd_keys {
+                                return Err(format!("op {}: cursor walked backward onto the first entry and then forward lists [{}], snapshot + pending writes hold [{}]", i, show(&turn.1), show(&fwd_keys)));
+                            }
+                        }
                     }
                 }
             }
